@@ -878,6 +878,14 @@ impl OutstationSession {
                 Ok(UnsolicitedWaitResult::ReadNext)
             }
             FragmentType::RepeatNonRead(_, last_response) => {
+                // A retransmitted SELECT must not invalidate the pending select,
+                // just as in the idle state
+                if request.header.function == FunctionCode::Select {
+                    if let Some(select) = &mut self.state.select {
+                        select.update_frame_id(info.id);
+                    }
+                }
+
                 if let Some(last_response) = last_response {
                     self.repeat_solicited(io, info.addr, writer, last_response)
                         .await?
